@@ -5,7 +5,7 @@
 //   G <alg> [k] <D|I|L> <scale> <nbits> <bitstring|-> <graph>       as T, without the ROOTS / EORD oracles (graphs with tens of thousands of
 //                                                                   vertices, judged against the property text only; EORD costs O(m^2) here)
 //       alg = signed_tbb | fvs_tbb | iso_tbb | approx_signed_tbb k | approx_fvs_tbb k | approx_iso_tbb k
-//       D = double weights w*2^scale, I = int weights, L = long long weights (64-bit integers, values above 2^53 included);
+//       D = double weights w*2^scale, I = int weights, L = long long weights (64-bit integers, values above 2^53 included), U = unsigned long weights;
 //       bitstring = nbits characters 0/1 = verif_sched::bits
 //       perm = explicit insertion order of the concurrently pushed elements (verif_sched.h; empty = execution order)
 //   prints  ROOTS .. EORD .. RET w N n CYC (len ids)* SCHED pos splits forks seqs rfirst chunks fors reduces pushes permused
@@ -122,6 +122,7 @@ int main() {
         if (ty == "D") run_alg<DGraph>(alg, k, bits, perm, trace, t, scale, out, oracles);
         else if (ty == "L") run_alg<LGraph>(alg, k, bits, perm, trace, t, 0, out, oracles);
         else if (ty == "I") run_alg<IGraph>(alg, k, bits, perm, trace, t, 0, out, oracles);
+        else if (ty == "U") run_alg<UGraph>(alg, k, bits, perm, trace, t, 0, out, oracles);
         else throw std::runtime_error("bad weight type");
     });
 }
